@@ -991,7 +991,7 @@ func propC06(r *Run, w *World) {
 		fn := x.toARD
 		var local string
 		for _, st := range storesOf(fn) {
-			if st.Val == ssa.Value(fn.Params[0]) {
+			if isParamValue(st.Val, fn.Params[0]) {
 				local = AddrTerm(st.Addr)
 			}
 		}
@@ -1240,7 +1240,7 @@ func propC06(r *Run, w *World) {
 			a := c.Common().Args
 			k, _ := constString(a[1])
 			op, _ := constString(a[2])
-			okK = k == "key" && op == "=" && Term(a[3]) == fmt.Sprintf("strings.Join(p1, %q)", string(rune(sep))) && a[0] == ssa.Value(x.addKeys.Params[0])
+			okK = k == "key" && op == "=" && Term(a[3]) == fmt.Sprintf("strings.Join(p1, %q)", string(rune(sep))) && isParamValue(a[0], x.addKeys.Params[0])
 		}
 		r.Check(okK, "addKeys", x.addKeys.Pos(), "addFilter(data, \"key\", \"=\", strings.Join(keys, sep))", "keys are not joined with the key separator into one key= filter")
 		fn := x.addFileWatch
